@@ -245,6 +245,50 @@ func suiteAppAuth(e *vh.Env) {
 			}
 		}
 	}
+	// hand-over histories: a backend ID is re-registered for another agent account (with and without deleting it
+	// first); the previous account must be refused from then on, however recently it was authorised
+	for i, del := range []bool{false, true} {
+		id := fmt.Sprintf("handover-%d", i)
+		b1 := aeBackend{id, "old-agent@svc", "ho-user@x", []string{"/ho" + fmt.Sprint(i)}}
+		b2 := aeBackend{id, "new-agent@svc", "ho-user@x", []string{"/ho" + fmt.Sprint(i)}}
+		registerBackend(e, b1)
+		for k := 0; k < 3; k++ { // several authorised calls by the old account (anything a cache could remember)
+			if st, _, _ := agentCall(b1.agent, id, "no-such-request", "/agent/request", "GET", nil); st == 401 {
+				e.Fail("C17:authorised-agent-refused", fmt.Sprintf("registered agent of %s got 401", id), -1, nil, nil, nil)
+			}
+		}
+		if del {
+			if st, _, body := apiCall(adminOAuth, true, "DELETE", "/api/backends/"+id, nil); st != 200 {
+				e.Fail("C17:setup-delete-backend", fmt.Sprintf("deleting backend %s: %d %s", id, st, body), -1, nil, nil, nil)
+			}
+		}
+		registerBackend(e, b2)
+		// at once, before the new account has made any call
+		if st, _, body := agentCall(b1.agent, id, "no-such-request", "/agent/request", "GET", nil); st != 401 {
+			e.Fail("C17:previous-agent-still-authorised", fmt.Sprintf("backend %s was re-registered for %s (delete first: %v); the previous agent account %s called /agent/request straight afterwards and got status %d, body %q", id, b2.agent, del, b1.agent, st, truncBytes(body, 80)), -1, nil, st, 401)
+		}
+		lv := goLive(e, b2)
+		uc := async(func() (int, http.Header, []byte) {
+			return userCall(b2.endUser, false, "ho-req", "POST", "/ho"+fmt.Sprint(i)+"/x", nil, []byte("handover-secret"))
+		})
+		await(lv, 35*time.Second)
+		for _, ep := range []string{"/agent/request", "/agent/pending"} {
+			ch := async(func() (int, http.Header, []byte) { return agentCall(b1.agent, id, "ho-req", ep, "GET", nil) })
+			r, ok := await(ch, 40*time.Second)
+			if !ok || r.Status != 401 {
+				e.Fail("C17:previous-agent-still-authorised", fmt.Sprintf("backend %s was re-registered for %s (delete first: %v); the previous agent account %s called %s and got status %d, body %q", id, b2.agent, del, b1.agent, ep, r.Status, truncBytes(r.Body, 80)), -1, nil, r.Status, 401)
+			}
+		}
+		if st, _, _ := agentCall(b1.agent, id, "ho-req", "/agent/response", "POST", httpResponseBytes("200 OK", nil, []byte("forged"))); st != 401 {
+			e.Fail("C17:previous-agent-still-authorised", fmt.Sprintf("backend %s re-registered; the previous agent account answered a request (status %d)", id, st), -1, nil, st, 401)
+		}
+		agentCall(b2.agent, id, "ho-req", "/agent/response", "POST", httpResponseBytes("200 OK", nil, []byte("genuine")))
+		if r, ok := await(uc, 10*time.Second); !ok || string(r.Body) != "genuine" {
+			e.Fail("C17:previous-agent-still-authorised", fmt.Sprintf("the client of re-registered backend %s received %q instead of the new agent's answer", id, r.Body), -1, nil, nil, nil)
+		}
+		e.Eval(fmt.Sprintf("handover delete-first=%v", del), true)
+		e.Count("handover")
+	}
 	// IDs containing the separators of the cache/datastore keys: backend "team" with request "prod:R" must not
 	// reach request "R" of backend "team:prod" (and similar pairs), neither through the datastore nor through memcache
 	for i, pair := range [][4]string{{"team:prod", "R1", "team", "prod:R1"}, {"t", "x\":\"R2", "t\":\"x", "R2"}, {"q:", "R3", "q", ":R3"}} {
@@ -470,4 +514,11 @@ func maxInt(a, b int) int {
 		return a
 	}
 	return b
+}
+
+func truncBytes(b []byte, n int) string {
+	if len(b) > n {
+		return string(b[:n]) + "…"
+	}
+	return string(b)
 }
